@@ -121,7 +121,8 @@ theorem wsdStep_equidistant {g : Seg} {ss : BitVec 64} {st st' : WsdSt} {idx : B
       sec'.addrSet = true := by
   unfold wsdStep at h
   rw [hs, hgen] at h
-  simp only [hnn, Bool.false_eq_true, if_false] at h
+  simp only [wsd_generated_skip_eq, wsd_generated_branch_eq, wsd_addr_missing_eq, wsd_occupies_eq,
+    wsd_gap_default_eq, wsd_align_one_eq, hnn, Bool.false_eq_true, if_false] at h
   have hi : (sec.index != 0) = true := by simpa using hidx
   split at h
   · cases h
@@ -135,14 +136,14 @@ theorem wsdStep_equidistant {g : Seg} {ss : BitVec 64} {st st' : WsdSt} {idx : B
     refine ⟨_, List.getElem?_set_self hlt, ?_⟩
     cases has : sec.addrSet with
     | false =>
-      simp only [Bool.not_false, if_true, setOffset, hi, truncA]
+      simp only [Bool.not_false, if_true, setOffset_eq, hi, truncA]
       refine ⟨?_, trivial⟩
       simp only [wsd_new_addr]
       bv_omega
     | true =>
       rcases hocc with h1 | ⟨h1, h2⟩
       · rw [has] at h1; cases h1
-      · simp only [has, Bool.not_true, Bool.false_eq_true, if_false, setOffset, hi, if_true, truncA]
+      · simp only [has, Bool.not_true, Bool.false_eq_true, if_false, setOffset_eq, hi, if_true, truncA]
         refine ⟨?_, trivial⟩
         -- the address-driven gap
         have hb : wsd_addr_branch false true sec.stype sec.size = true := by
@@ -387,7 +388,7 @@ def MemberIdx (segs : List Seg) (i : Nat) : Prop := ∃ g ∈ segs, ∃ k ∈ g.
 
 theorem withoutSegment_member {segs : List Seg} {i : Nat} (h : MemberIdx segs i) : withoutSegment segs i = false := by
   obtain ⟨g, hg, k, hk, e⟩ := h
-  unfold withoutSegment
+  rw [withoutSegment_eq]
   simp only [Bool.not_eq_false', List.any_eq_true]
   exact ⟨g, hg, k, hk, by simpa using e⟩
 
